@@ -362,7 +362,9 @@ func c19Matrix(f func(admitted, fallback bool, handler string)) {
 }
 
 var c19Bools = []bool{true, false}
-var c19Handlers = []string{"ok", "err", "panic"}
+// "errtyped": the handler fails with the framework's own error type carrying a client-error status (where the
+// framework has one; elsewhere it is a second plain failure)
+var c19Handlers = []string{"ok", "err", "panic", "errtyped"}
 
 func c19Name(ep string, admitted, fallback bool, handler string) string {
 	if c19PairTag != "" {
@@ -418,7 +420,7 @@ func c19HertzServerCase(t *testing.T, admitted, fallback bool, handler string) {
 		switch handler {
 		case "ok":
 			ctx.String(http.StatusOK, "ok")
-		case "err":
+		case "err", "errtyped":
 			_ = ctx.Error(c19ErrHandler)
 			ctx.String(http.StatusInternalServerError, "err")
 		case "panic":
@@ -458,7 +460,7 @@ func c19HertzClientCase(t *testing.T, admitted, fallback bool, handler string) {
 	h := SentinelClientMiddleware(opts...)(func(ctx context.Context, req *protocol.Request, resp *protocol.Response) error {
 		c.handlerCalled()
 		switch handler {
-		case "err":
+		case "err", "errtyped":
 			return c19ErrHandler
 		case "panic":
 			panic("c19 handler panic")
